@@ -119,6 +119,18 @@ def check_case(calls, reply_pattern, rnd):
         if r is None:
             continue
         reply.append((i, r, rnd.choice(TS) if r == 0 else ''))
+    if (len(entries) + len(reply)) % 2 == 0:
+        # an earlier association of the same entity, with a peer that refused everything (and an application that asked
+        # for every class all the same): what that peer said must not be held against this one
+        try:
+            req0, _ = run_request(ae, [(i, 3, '') for i, _ in proposed])
+            for cls in sorted(set(scu)) + ['1.2.826.0.1.3680043.9.7.1']:
+                try:
+                    req0.get_scu(cls)
+                except exceptions.ClassNotSupportedError:
+                    pass
+        except Exception as e:  # pylint: disable=broad-except
+            return 'an association in which the peer refused every context raised %r' % (e,), None, []
     try:
         req, rq_obj = run_request(ae, reply)
     except Exception as e:  # pylint: disable=broad-except
